@@ -1,24 +1,34 @@
 package z80
 
 // C16 — flag and register accessors touch exactly the named bits.
+// The expected values are stated bit by bit (not with the byte-wide
+// expressions the implementation uses), so the obligations reach the solver.
+
+func vBit(v uint8, i int) bool { return v&(1<<uint(i)) != 0 }
 
 func VC16Flags() {
 	var g GPR
 	vHavoc(&g, "g")
 	f := Flag(vU8("f"))
 	pre := g
-	vAssert("GetFlag", g.GetFlag(f) == (pre.AF.Lo&uint8(f) != 0))
+	anyBit := false
+	for i := 0; i < 8; i++ {
+		anyBit = vOr(anyBit, vAnd(vBit(uint8(f), i), vBit(pre.AF.Lo, i)))
+	}
+	vAssert("GetFlag", g.GetFlag(f) == anyBit)
 	vAssert("GetFlag-pure", g == pre)
 	s := pre
 	s.SetFlag(f)
-	want := pre
-	want.AF.Lo = pre.AF.Lo | uint8(f)
-	vAssert("SetFlag", s == want)
 	r := pre
 	r.ResetFlag(f)
-	want = pre
-	want.AF.Lo = pre.AF.Lo &^ uint8(f)
-	vAssert("ResetFlag", r == want)
+	for i := 0; i < 8; i++ {
+		vAssert("SetFlag-bit", vBit(s.AF.Lo, i) == vOr(vBit(pre.AF.Lo, i), vBit(uint8(f), i)))
+		vAssert("ResetFlag-bit", vBit(r.AF.Lo, i) == vAnd(vBit(pre.AF.Lo, i), !vBit(uint8(f), i)))
+	}
+	// nothing but F changes
+	s.AF.Lo, r.AF.Lo = pre.AF.Lo, pre.AF.Lo
+	vAssert("SetFlag-rest", s == pre)
+	vAssert("ResetFlag-rest", r == pre)
 }
 
 func VC16Consts() {
@@ -30,26 +40,26 @@ func VC16Consts() {
 	vAssert("Flag5", Flag5 == 0x20)
 	vAssert("FlagZ", FlagZ == 0x40)
 	vAssert("FlagS", FlagS == 0x80)
-	// each single-bit constant selects exactly that bit of F
+	// each constant selects exactly its bit of F
 	var g GPR
 	vHavoc(&g, "g")
-	vAssert("GetFlagC", g.GetFlag(FlagC) == (g.AF.Lo&0x01 != 0))
-	vAssert("GetFlagN", g.GetFlag(FlagN) == (g.AF.Lo&0x02 != 0))
-	vAssert("GetFlagPV", g.GetFlag(FlagPV) == (g.AF.Lo&0x04 != 0))
-	vAssert("GetFlag3", g.GetFlag(Flag3) == (g.AF.Lo&0x08 != 0))
-	vAssert("GetFlagH", g.GetFlag(FlagH) == (g.AF.Lo&0x10 != 0))
-	vAssert("GetFlag5", g.GetFlag(Flag5) == (g.AF.Lo&0x20 != 0))
-	vAssert("GetFlagZ", g.GetFlag(FlagZ) == (g.AF.Lo&0x40 != 0))
-	vAssert("GetFlagS", g.GetFlag(FlagS) == (g.AF.Lo&0x80 != 0))
+	vAssert("GetFlagC", g.GetFlag(FlagC) == vBit(g.AF.Lo, 0))
+	vAssert("GetFlagN", g.GetFlag(FlagN) == vBit(g.AF.Lo, 1))
+	vAssert("GetFlagPV", g.GetFlag(FlagPV) == vBit(g.AF.Lo, 2))
+	vAssert("GetFlag3", g.GetFlag(Flag3) == vBit(g.AF.Lo, 3))
+	vAssert("GetFlagH", g.GetFlag(FlagH) == vBit(g.AF.Lo, 4))
+	vAssert("GetFlag5", g.GetFlag(Flag5) == vBit(g.AF.Lo, 5))
+	vAssert("GetFlagZ", g.GetFlag(FlagZ) == vBit(g.AF.Lo, 6))
+	vAssert("GetFlagS", g.GetFlag(FlagS) == vBit(g.AF.Lo, 7))
 }
 
 func VC16Reg() {
 	var r Register
 	vHavoc(&r, "r")
 	v := vU16("v")
-	vAssert("U16", r.U16() == uint16(r.Hi)<<8|uint16(r.Lo))
+	vAssert("U16", uint32(r.U16()) == uint32(r.Hi)*256+uint32(r.Lo))
 	r.SetU16(v)
 	vAssert("roundtrip", r.U16() == v)
-	vAssert("Hi", r.Hi == uint8(v>>8))
-	vAssert("Lo", r.Lo == uint8(v&0xff))
+	vAssert("Hi", uint32(r.Hi) == uint32(v)/256)
+	vAssert("Lo", uint32(r.Lo) == uint32(v)%256)
 }
